@@ -15,6 +15,7 @@ package main
 //                  what was acknowledged before is on disk.
 
 import (
+	"bufio"
 	"bytes"
 	"crypto/ecdsa"
 	"crypto/elliptic"
@@ -124,7 +125,7 @@ var plainClient = &http.Client{Timeout: 5 * time.Second, Transport: &http.Transp
 var tlsClient = &http.Client{Timeout: 5 * time.Second, Transport: &http.Transport{DisableKeepAlives: true, TLSClientConfig: &tls.Config{InsecureSkipVerify: true}}}
 
 func listenTrial(r *vh.Run, bin string, i int) {
-	kinds := []string{"bare-value-delete", "bare-value-push", "addr-ipv6", "addr-ipv6-bracketed", "tls", "tls-half-cert", "tls-half-key", "stalled-client"}
+	kinds := []string{"bare-value-delete", "bare-value-push", "addr-ipv6", "addr-ipv6-bracketed", "tls", "tls-half-cert", "tls-half-key", "stalled-client", "help-examples", "options-star"}
 	kind := kinds[i%len(kinds)]
 	dir := r.TempDir("c19l")
 	defer vh.RemoveAll(dir)
@@ -255,6 +256,106 @@ func listenTrial(r *vh.Run, bin string, i int) {
 		}
 		if !up && p.exited() {
 			r.Count("listen_command_line_refused", 1)
+		}
+	case "help-examples":
+		// the command's own documentation: every example line of `olareg serve --help` starts a server (address, port and
+		// directory are appended - a later flag overrides an earlier one - the files an example names are provided)
+		out, err := exec.Command(bin, "serve", "--help").CombinedOutput()
+		if err != nil {
+			r.Inconclusive("listenTrial: serve --help failed: " + err.Error())
+			return
+		}
+		cert, key, err := selfSigned(dir)
+		if err != nil {
+			r.Inconclusive("listenTrial: cannot make a certificate: " + err.Error())
+			return
+		}
+		_ = os.Rename(cert, filepath.Join(dir, "host.pem"))
+		_ = os.Rename(key, filepath.Join(dir, "host.key"))
+		_ = os.MkdirAll(filepath.Join(dir, "mirror"), 0o755)
+		nex := 0
+		for _, line := range strings.Split(string(out), "\n") {
+			line = strings.TrimSpace(line)
+			if !strings.HasPrefix(line, "olareg serve") || strings.Contains(line, "[flags]") {
+				continue // (the usage line is no example)
+			}
+			nex++
+			ex := strings.Fields(strings.TrimPrefix(line, "olareg serve"))
+			p2 := freePort()
+			args := append(append([]string{}, ex...), "--addr", "127.0.0.1", "--port", fmt.Sprint(p2))
+			cmd := exec.Command(bin, append([]string{"serve"}, args...)...)
+			cmd.Dir = dir
+			errb := &bytes.Buffer{}
+			cmd.Stderr, cmd.Stdout = errb, io.Discard
+			if err := cmd.Start(); err != nil {
+				continue
+			}
+			lp := &lproc{cmd: cmd, errb: errb, done: make(chan struct{})}
+			go func() { _ = cmd.Wait(); close(lp.done) }()
+			cl, scheme := plainClient, "http"
+			if strings.Contains(line, "--tls-cert") {
+				cl, scheme = tlsClient, "https"
+			}
+			st, up := lp.waitUp(cl, fmt.Sprintf("%s://127.0.0.1:%d/v2/", scheme, p2))
+			r.Count("help_examples_run", 1)
+			if !up || st != 200 {
+				wit["example"] = line
+				fail("flags:documented-example-does-not-start", fmt.Sprintf("the example `%s` from `olareg serve --help` does not start a server (came up: %v, exited: %v, status %d): %.200s", line, up, lp.exited(), st, strings.TrimSpace(errb.String())), lp)
+			}
+			lp.stop()
+		}
+		r.Count("listen_trials", 1)
+		if nex == 0 {
+			r.Inconclusive("listenTrial: no example lines found in serve --help")
+		}
+	case "options-star":
+		// `OPTIONS *` is a request like any other: it counts against the rate limit and carries the configured warning
+		args := append([]string{"--addr", "127.0.0.1"}, base...)
+		args = append(args, "--rate-limit", "2", "--warning", "be warned")
+		wit["args"] = strings.Join(args, " ")
+		p, err := lstart(bin, args...)
+		if err != nil {
+			r.Inconclusive("listenTrial: " + err.Error())
+			return
+		}
+		defer p.stop()
+		if _, up := p.waitUp(plainClient, v4+"/v2/"); !up {
+			r.Inconclusive("listenTrial: server did not come up")
+			return
+		}
+		time.Sleep(1100 * time.Millisecond) // a fresh accounting second for this address
+		conn, err := net.Dial("tcp", fmt.Sprintf("127.0.0.1:%d", port))
+		if err != nil {
+			r.Inconclusive("listenTrial: dial: " + err.Error())
+			return
+		}
+		defer conn.Close()
+		t0 := time.Now()
+		br := bufio.NewReader(conn)
+		served, unwarned := 0, 0
+		const n = 8
+		for k := 0; k < n; k++ {
+			fmt.Fprintf(conn, "OPTIONS * HTTP/1.1\r\nHost: 127.0.0.1\r\n\r\n")
+			rs, err := http.ReadResponse(br, nil)
+			if err != nil {
+				break
+			}
+			_, _ = io.Copy(io.Discard, rs.Body)
+			rs.Body.Close()
+			if rs.StatusCode != 429 {
+				served++
+			}
+			if rs.Header.Get("Warning") == "" {
+				unwarned++
+			}
+		}
+		el := time.Since(t0)
+		r.Count("listen_trials", 1)
+		wit["served"], wit["without_warning"], wit["elapsed"] = served, unwarned, el.String()
+		if el < 900*time.Millisecond && served > 2 {
+			fail("ratelimit:options-star-not-counted", fmt.Sprintf("--rate-limit 2: %d of %d `OPTIONS *` requests sent by one address within %s were served (not answered 429)", served, n, el.Round(time.Millisecond)), p)
+		} else if unwarned > 0 {
+			fail("warning:missing-on-options-star", fmt.Sprintf("--warning set: %d of %d answers to `OPTIONS *` carry no Warning header", unwarned, n), p)
 		}
 	case "stalled-client":
 		args := append([]string{"--addr", "127.0.0.1"}, base...)
